@@ -58,6 +58,9 @@ class AsyncScheduler(SchedulerBase):
                     job.execute()
                 except Exception as e:
                     process_exception(e)
+                    # the next run could not be calculated: pause the job instead of running it again
+                    if job.status is STATUS_RUNNING and job.next_run == next_run:
+                        job.set_next_run(None)
 
                 # Reschedule job if it's still running
                 if job.status is STATUS_RUNNING:
